@@ -29,6 +29,16 @@ func genCfg(rng *hx.Rng, prop string, meta *hx.Meta) cfg {
 		c.Writers = append(c.Writers, ws)
 	}
 	switch prop {
+	case "C05":
+		// several Close calls with distinct errors racing each other and the writers
+		c.Closers = []int{[]int{0, 5}[rng.Intn(2)]}
+		if rng.Chance(70) {
+			c.Closers = append(c.Closers, 6)
+		}
+		if rng.Chance(25) {
+			c.Closers = append(c.Closers, 7)
+		}
+		c.Quiet = rng.Chance(30)
 	case "C02":
 	case "C06":
 		c.Closers = []int{5}
